@@ -185,6 +185,30 @@ def box_faces(G, lo, hi):
     return nfaces, nref
 
 
+def facet_faces(smp, G, lo, hi):
+    """Per boundary ELEMENT of the sample decide from the coordinates of all its points whether it lies on a face
+    of the parameter box: returns (onface, nref, offbox) per point.  A facet whose points share exactly one face
+    is on that face (a vertex in a box corner then still gets the facet's own face); a facet sharing no face is
+    not on the box (a trimmed cut, even if one of its vertices touches the box); anything else is left undecided."""
+    w = hi - lo
+    onlo = numpy.abs(G - lo) <= 1e-9 * w
+    onhi = numpy.abs(G - hi) <= 1e-9 * w
+    onface = numpy.zeros(len(G), dtype=bool)
+    offbox = numpy.zeros(len(G), dtype=bool)
+    nref = numpy.zeros(G.shape)
+    for idx in element_points(smp):
+        if not len(idx):
+            continue
+        clo, chi = onlo[idx].all(0), onhi[idx].all(0)
+        k = int(clo.sum() + chi.sum())
+        if k == 1:
+            onface[idx] = True
+            nref[idx] = chi.astype(float) - clo.astype(float)
+        elif k == 0:
+            offbox[idx] = True
+    return onface, nref, offbox
+
+
 def normalize(v):
     return v / numpy.linalg.norm(v, axis=-1, keepdims=True)
 
@@ -230,11 +254,10 @@ def check_facet_normals(ck, sc, smp, skind, G, N, cent=None, ethis=None, eopp=No
     # pulled back covector: DPhi^T n is a positive multiple of the outward parameter-space normal
     cov = numpy.einsum('kmn,km->kn', D, N)
     if skind.startswith('boundary') and exact_from_faces:
-        nfaces, nref = box_faces(G, lo, hi)
-        if (nfaces == 0).any() and not allow_offbox:
+        one, nref, offbox = facet_faces(smp, G, lo, hi)
+        if offbox.any() and not allow_offbox:
             res.count('harness/boundary_point_not_on_box')
             res.note(f'boundary point not on the box for mesh {sc.b.desc}')
-        one = nfaces == 1
         if one.any():
             if sc.m == sc.n:
                 ex = numpy.linalg.solve(numpy.swapaxes(D[one], 1, 2), nref[one][..., None])[..., 0]   # DPhi^-T n_ref
@@ -1102,12 +1125,10 @@ def run_trimmed(case, ck):
     ck.cmp('grad', 'boundary(trimmed domain)', V['grad'], ops['grad'][1](X), scale=ops['grad'][2](X))
     D, cov = check_facet_normals(ck, sc, smp, 'boundary(trimmed domain)', G, N, exact_from_faces=False)
     ck.cmp('J(x)==|cof DPhi nu| J(g)', 'boundary(trimmed domain)', V['Jx'], measure_ratio(D, normalize(cov)) * V['Jg'])
-    nfaces, nref = box_faces(G, sc.b.lo, sc.b.hi)
-    one = nfaces == 1
+    one, nref, tr = facet_faces(smp, G, sc.b.lo, sc.b.hi)
     if one.any():
         ex = numpy.linalg.solve(numpy.swapaxes(D[one], 1, 2), nref[one][..., None])[..., 0]
         ck.cmp('n==exact outward normal (cofactor rule on box face)', 'boundary(trimmed domain)', N[one], normalize(ex))
-    tr = nfaces == 0
     if tr.any():
         res.count('points/on trimmed facets', int(tr.sum()))
         gphi = peval(pgrad(numpy.array([phi], dtype=object), n)[0], G[tr])        # grad_g phi
